@@ -133,7 +133,7 @@ def commit_advance(cx):
                     r = term_is(prog, l)
                     return r is not None and r[1] == idx and r[2][0] == "param"
                 ok = require(cx, s, key, "PREFIX-MATCHED: commit_to(min(%s, %s + len)) needs the (index, term) anchor to match the log" % (show(cparam), show(idx)), acc_prefix,
-                             kill=False,  # the append in between is part of the idiom (APPEND.conflict_suffix covers what it may touch)
+                             kill=False,  # the append in between is part of the idiom (APPEND.* covers what it may touch)
                              detail={"arg": show(to)})
                 if ok:
                     seen_idioms.add("PREFIX-MATCHED")
